@@ -42,6 +42,28 @@ async fn tcp_listener(l: TcpListener, name: String, hits: Hits, mode: &'static s
                         hit(&hits2, &format!("{}:first={:02x}", name2, b[0]));
                     }
                     let _ = s.shutdown().await;
+                } else if mode == "slowtls" {
+                    // answers the StartTLS request with success after 1.4 s, then never says anything again
+                    let mut buf: Vec<u8> = vec![];
+                    let mut tmp = [0u8; 512];
+                    let id = loop {
+                        if let Some(t) = crate::ber::outer_complete(&buf) {
+                            break crate::msg::decode_request(&buf[..t]).map(|m| m.id).unwrap_or(1);
+                        }
+                        match s.read(&mut tmp).await {
+                            Ok(0) | Err(_) => return,
+                            Ok(n) => buf.extend_from_slice(&tmp[..n]),
+                        }
+                    };
+                    tokio::time::sleep(Duration::from_millis(1400)).await;
+                    let ok = crate::msg::Resp::Extended { res: crate::msg::Res::ok("go ahead"), name: Some("1.3.6.1.4.1.1466.20037".into()), value: None };
+                    let _ = s.write_all(&crate::ber::encode_min(&crate::msg::resp_node(id, &ok, None))).await;
+                    loop {
+                        match s.read(&mut tmp).await {
+                            Ok(0) | Err(_) => break,
+                            Ok(_) => {}
+                        }
+                    }
                 } else if mode == "silent" {
                     let mut buf = [0u8; 512];
                     loop {
@@ -106,6 +128,10 @@ struct Case {
     max_ms: Option<u64>,
     note: &'static str,
 }
+
+/// `max_ms` values from here on are verdicts, not load indicators: the bound is `max_ms - STRICT`, it has a
+/// margin of more than a second over the expected duration, and it must be missed twice in a row.
+const STRICT: u64 = 1_000_000;
 
 fn pct_path(p: &str) -> String {
     let mut o = String::new();
@@ -258,6 +284,9 @@ pub fn table(ctx: &Ctx) -> Report {
             }
             Err(_) => None,
         };
+        let slow = TcpListener::bind("127.0.0.1:0").await.expect("slowtls");
+        let pslow = slow.local_addr().unwrap().port();
+        tokio::spawn(tcp_listener(slow, "tcp4:slowtls".into(), hits.clone(), "slowtls"));
         // a port with no listener
         let dead = {
             let l = std::net::TcpListener::bind("127.0.0.1:0").unwrap();
@@ -371,6 +400,9 @@ pub fn table(ctx: &Ctx) -> Report {
         // ... and the URL's host is not consulted at all
         cases.push(Case { url: "ldap://directory.corp.invalid:3890".into(), starttls: false, timeout_ms: Some(3000), stream: Stream::TcpTo(pe), expect: Expect::OkVia("tcp4:eph".into()), max_ms: None, note: "pre-opened TCP stream with a URL host that does not resolve" });
         cases.push(Case { url: "ldap://directory.corp.invalid".into(), starttls: false, timeout_ms: None, stream: Stream::TcpTo(pe), expect: Expect::OkVia("tcp4:eph".into()), max_ms: None, note: "pre-opened TCP stream with a URL host that does not resolve" });
+        // one timeout for the whole establishment, not one per step: the StartTLS answer takes 1.4 s of the 2 s, the
+        // handshake is never answered (a timeout that restarted with the handshake would fire after 3.4 s)
+        cases.push(Case { url: format!("ldap://127.0.0.1:{}", pslow), starttls: true, timeout_ms: Some(2000), stream: Stream::None, expect: Expect::ContactVia("tcp4:slowtls".into()), max_ms: Some(STRICT + 3_100), note: "StartTLS answered late, handshake never: the connection timeout bounds the sum" });
         // the smallest timeouts are timeouts too: zero does not mean "none"
         for t in [0u64, 1] {
             cases.push(Case { url: format!("ldap://127.0.0.1:{}", ps), starttls: true, timeout_ms: Some(t), stream: Stream::None, expect: Expect::Err(vec!["Timeout"]), max_ms: Some(6_000), note: "StartTLS against a server that never answers, zero / 1 ms connection timeout" });
@@ -480,6 +512,10 @@ pub fn table(ctx: &Ctx) -> Report {
                         }
                     };
                     if res != "Hung" {
+                        // a strict time bound (see STRICT) that is missed is measured once more, alone
+                        if attempt == 0 && matches!(c.max_ms, Some(mx) if mx >= STRICT && t0.elapsed().as_millis() as u64 > mx - STRICT) {
+                            continue;
+                        }
                         break;
                     }
                     slow_first_attempt = true;
@@ -567,7 +603,11 @@ pub fn table(ctx: &Ctx) -> Report {
                 }
                 Expect::NoPanic => {}
             }
-            if let Some(mx) = max_ms {
+            if let Some(mx) = max_ms.filter(|m| *m >= STRICT) {
+                if ms > mx - STRICT {
+                    rep.violation("C18:connection-timeout-does-not-bound-the-whole-establishment", format!("twice in a row the call returned only after more than {} ms (last: {} ms): {}", mx - STRICT, ms, desc), replay.clone());
+                }
+            } else if let Some(mx) = max_ms {
                 if ms > mx {
                     // it did return: late on the wall clock is a loaded machine, not a verdict
                     rep.inconclusive(format!("returned after {} ms (> {} ms): {}", ms, mx, desc));
